@@ -167,14 +167,22 @@ impl StateSpace for SO3StateSpace {
         };
 
         let (center_rotation, max_angle) = &self.bounds;
-        let actual_distance = self.distance(center_rotation, state);
-        if actual_distance < 1e-9 {
-            return;
-        }
+        // For nearly parallel quaternions `interpolate` uses a normalised LERP, which is not
+        // exactly constant-speed: one projection can land ~1e-6 outside a narrow cone. Project
+        // again from where it landed until the bounds check accepts the state (two rounds).
+        for _ in 0..4 {
+            let actual_distance = self.distance(center_rotation, state);
+            if actual_distance < 1e-9 {
+                return;
+            }
 
-        let t = *max_angle / actual_distance;
-        let original_state = state.clone();
-        self.interpolate(center_rotation, &original_state, t, state);
+            let t = *max_angle / actual_distance;
+            let original_state = state.clone();
+            self.interpolate(center_rotation, &original_state, t, state);
+            if self.satisfies_bounds(state) {
+                return;
+            }
+        }
     }
 
     /// Checks if a state is within the defined "cone of freedom" bounds.
